@@ -384,7 +384,7 @@ func progEvent(r *rand.Rand, p prog, variants int, meta bool, zeroPad bool) stri
 	var res, texts []string
 	cfg := p.cfg()
 	for v := 0; v < variants; v++ {
-		o := &renderOpts{r: r, plain: v == 0, zeroPad: zeroPad}
+		o := &renderOpts{r: r, plain: v == 0, zeroPad: zeroPad, rich: true}
 		q := p
 		if v > 0 {
 			o.rename = respell(r, p)
